@@ -263,6 +263,17 @@ def run_shard(sh):
                 res.feat('latin1_cases')
             res.states += 3
             res.transitions += 3
+    elif kind == 'manylines':
+        # scale probe: quoted_rfc records spanning 2..40 physical lines (mixed LF / CRLF / CR breaks inside the field)
+        for nl in (2, 3, 8, 9, 16, 17, 33, 40):
+            for br in ('\n', '\r\n', '\r'):
+                f = br.join('l%d' % i for i in range(nl))
+                for enc in (None, 'utf-8'):
+                    judge(res, rc, eng, [[f, 'x'], ['y', 'z']], dlm, pol, enc, '\n')
+                    judge(res, rc, eng, [['p', f + '"q']], dlm, pol, enc, '\r\n')
+                    res.feat('manyline_records')
+                res.states += 2
+                res.transitions += 2
     elif kind == 'long':
         # size thresholds: fields whose special characters sit right at 1024 / 8192 (reader chunk, text wrapper buffer) boundaries
         for L in (1022, 1023, 1024, 1025, 8190, 8191, 8192, 8193):
@@ -299,6 +310,8 @@ def main(tier, seed):
         shards.append({'kind': 'len3', 'cfg': cfg, 'o': o, 'n': 3})
         shards.append({'kind': 'shape', 'cfg': cfg, 'o': o})
         shards.append({'kind': 'long', 'cfg': cfg, 'o': o})
+        if cfg[0] == 'quoted_rfc':
+            shards.append({'kind': 'manylines', 'cfg': cfg, 'o': o})
         shards.append({'kind': 'len3', 'cfg': cfg, 'o': o, 'n': 4})
         n3 = len(list(strings(field_alphabet(cfg[1], o[0], o[1]), 3)))
         for lo, hi in core.chunks(n3, 8):
@@ -310,7 +323,7 @@ def main(tier, seed):
     for cfg in configs():
         if cfg[0] != 'monocolumn':
             shards.append({'kind': 'js', 'cfg': cfg, 'o': o, 'pair_limit': 73 if tier == 'thorough' else 24, 'bigfile': cfg in (('quoted', ','), ('simple', '\t'))})
-    shards.sort(key=lambda s: {'pairs3': 0, 'pairs2': 1, 'shape': 2, 'len3': 3, 'latin1': 4, 'long': 2, 'js': 1}[s['kind']])
+    shards.sort(key=lambda s: {'pairs3': 0, 'pairs2': 1, 'shape': 2, 'len3': 3, 'latin1': 4, 'long': 2, 'js': 1, 'manylines': 3}[s['kind']])
     res = core.run_shards('vf.checks.c10', shards)
     return core.finish(PID, tier, seed, res, t0,
         rule='tables over the field alphabet {quote, delimiter characters, space, tab, CR, LF, ordinary, non-ASCII}: all 1-2 field rows over fields <= 2 chars, fields of length 3 (thorough 4; and all 2-field rows over fields <= 3) '
